@@ -6,6 +6,7 @@ CONSTANTS
   Head0 <- HeadU
   MaxCrash = 1
   MaxTries = 3
+  AcceptRepair = TRUE
   LockedMarker = TRUE
   Known <- KnownNone
 INVARIANT C21Inv
